@@ -211,12 +211,26 @@ package vuego
 //@   ensures C12.reported: failed(w) && !old(failed(w)) ==> err != nil
 //@   ensures C12.complete: err == nil ==> failed(w) == old(failed(w))
 
+// Front-matter is merged over a copy: the caller's map is never written (C09: shared read-only data, C10).
+//@ func mergeFrontMatter(data, frontMatter) (r)
+//@   modifies nothing
+//@   ensures C09+C10.merge.fresh: fresh(r) && r != nil
+//@   ensures C08+C10.merge.precedence: forall k string :: ((k in r) == ((k in frontMatter) || (k in data))) &&
+//@     ((k in r) ==> r[k] == ((k in frontMatter) ? frontMatter[k] : data[k]))
+//@   loop 0 invariant C10.merge.data: fresh(merged) && merged != nil && forall k string ::
+//@     (visited(k) ==> (k in data) && (k in merged) && merged[k] == data[k]) && (!visited(k) ==> !(k in merged))
+//@   loop 1 invariant C10.merge.front: fresh(merged) && merged != nil && forall k string ::
+//@     (visited(k) ==> (k in frontMatter) && (k in merged) && merged[k] == frontMatter[k]) &&
+//@     (!visited(k) ==> ((k in merged) == (k in data)) && ((k in merged) ==> merged[k] == data[k]))
+
 //@ func (v *Vue) Render(w, filename, data) (err)
+//@   assert C09+C10.root.private: fresh($arg0) at "call NewStackWithData"
 //@   ensures C12.nothing: err != nil && !failed(w) ==> out(w) == old(out(w))
 //@   ensures C12.reported: failed(w) && !old(failed(w)) ==> err != nil
 //@   ensures C12.complete: err == nil ==> failed(w) == old(failed(w))
 
 //@ func (v *Vue) RenderFragment(w, filename, data) (err)
+//@   assert C09+C10.root.private: fresh($arg0) at "call NewStackWithData"
 //@   ensures C12.nothing: err != nil && !failed(w) ==> out(w) == old(out(w))
 //@   ensures C12.reported: failed(w) && !old(failed(w)) ==> err != nil
 //@   ensures C12.complete: err == nil ==> failed(w) == old(failed(w))
